@@ -218,7 +218,14 @@ def run_prog(case, pid, at_limit_fn=None, on_step=None):
         dc = world.dc
         path = world.path('c')
         sibling = None
+        dirname_ok = True
         if cfg.get('dirname'):
+            import sys as _sys
+            try:
+                ''.join(cfg['dirname']).encode(_sys.getfilesystemencoding())
+            except UnicodeEncodeError:
+                dirname_ok = False      # this interpreter (C locale, no UTF-8 mode) cannot name such a directory at all
+        if cfg.get('dirname') and dirname_ok:
             # a directory name with characters that mean something in URIs, patterns or shells, next to a directory whose name is
             # the same up to such a character: two directories, two caches
             path = world.path(cfg['dirname'][0])
